@@ -168,6 +168,22 @@ def _check_case(case):
             k = min(len(l1), len(l2))
             if k and np.abs(l2[:k] - l1[:k] * e * s).max() > 1e-6 * np.abs(l2[:k]).max():
                 fails.append(fail('similarity scaling (s,e,q) does not scale the buckling line loads by e*s', sig=None, case=case, seq=[s, e, q]))
+        # a constant pre-load (part of k0) under changes of units, including units in which it is numerically tiny
+        if case['triple'] == 0 and (case['m'], case['n']) != (9, 9):
+            pre = -0.3 * float(l1[0]) if len(l1) else 0.0         # 30 per cent of the critical uniaxial line load of this panel
+            pp1 = Panel(a=0.6, b=0.4, stack=stack, plyt=pan.PLYT, laminaprop=mat, m=case['m'], n=case['n'], mu=1500., **fl)
+            pp1.Nxx_cte = pre * (tri[0] < 0)
+            if pp1.Nxx_cte:
+                wp1, _ = spectra(pp1, tri)
+                for (s_, e_, q_) in ((1.0, 1.0e-9, 1.0e-9), (1.0e3, 1.0e-6, 1.0e-12), (2.0, 0.5, 3.7)):
+                    m2_ = (mat[0] * e_, mat[1] * e_, mat[2], mat[3] * e_, mat[4] * e_, mat[5] * e_)
+                    pp2 = Panel(a=0.6 * s_, b=0.4 * s_, stack=stack, plyt=pan.PLYT * s_, laminaprop=m2_, m=case['m'], n=case['n'], mu=1500. * q_, **fl)
+                    pp2.Nxx_cte = pp1.Nxx_cte * e_ * s_
+                    wp2, _ = spectra(pp2, tri)
+                    relw = np.abs(wp2 - wp1 * (e_ / q_) / s_ ** 2).max() / np.abs(wp2).max()
+                    if relw > 1e-6:
+                        fails.append(fail('frequencies of a pre-loaded panel do not follow the similarity law under a change of units', sig=None, case=case,
+                                          seq=[s_, e_, q_], preload_in_these_units=float(pp2.Nxx_cte), rel=float(relw)))
         # the same description reached by editing the entries of the user-supplied lists in place on ONE object (after an
         # evaluation) must give what a freshly defined panel with these values gives
         if case['triple'] == 0 and (case['m'], case['n']) != (9, 9):
